@@ -202,15 +202,21 @@ func c14Cases(tier string) []c14Case {
 		fsmodel.Node{Path: "m2", Kind: fsmodel.Dir, Perm: 0755, Mtime: T}, fsmodel.Node{Path: "m2/sub", Kind: fsmodel.Dir, Perm: 0755, Mtime: T},
 		fsmodel.Node{Path: "m2/sub/x", Kind: fsmodel.File, Perm: 0644, Mtime: T + 5, Data: []byte("SRC:m2/sub/x")}, fsmodel.Node{Path: "m2/sub/y", Kind: fsmodel.Dir, Perm: 0755, Mtime: T},
 		fsmodel.Node{Path: "m2/sub/y/g", Kind: fsmodel.File, Perm: 0644, Mtime: T + 6, Data: []byte("SRC:m2/sub/y/g")})
+	mergeXY := merge.Clone()
+	mergeXY.Sort()
+	srcV = append(srcV, mergeXY)
 	// ... and an inode with two names whose destination paths coincide, with a link to an outside file copied onto
 	// that path in between
-	merge = append(merge, fsmodel.Node{Path: "m1/sub/z", Kind: fsmodel.File, Perm: 0640, Mtime: T + 7, Data: []byte("SRC:z"), HL: 1},
+	mergeZ := append(merge.Clone(), fsmodel.Node{Path: "m1/sub/z", Kind: fsmodel.File, Perm: 0640, Mtime: T + 7, Data: []byte("SRC:z"), HL: 1},
 		fsmodel.Node{Path: "m2/sub/z", Kind: fsmodel.Symlink, Perm: 0777, Mtime: T, Link: "/outside/f"},
 		fsmodel.Node{Path: "m3", Kind: fsmodel.Dir, Perm: 0755, Mtime: T}, fsmodel.Node{Path: "m3/sub", Kind: fsmodel.Dir, Perm: 0755, Mtime: T},
 		fsmodel.Node{Path: "m3/sub/z", Kind: fsmodel.File, Perm: 0640, Mtime: T + 7, Data: []byte("SRC:z"), HL: 1})
+	mergeZ.Sort()
+	srcV = append(srcV, mergeZ)
 	// ... and the same with different final names: the second name of the inode is linked to a destination path
-	// that a link to an outside file has taken over in between
-	merge = append(merge, fsmodel.Node{Path: "m1/sub/h1", Kind: fsmodel.File, Perm: 0600, Mtime: T + 8, Data: []byte("SRC:h"), HL: 2},
+	// that a link to an outside file has taken over in between. (Separate trees: a copy that stops at one of these
+	// entries would otherwise never reach the ones sorted after it.)
+	merge = append(mergeZ.Clone(), fsmodel.Node{Path: "m1/sub/h1", Kind: fsmodel.File, Perm: 0600, Mtime: T + 8, Data: []byte("SRC:h"), HL: 2},
 		fsmodel.Node{Path: "m2/sub/h1", Kind: fsmodel.Symlink, Perm: 0777, Mtime: T, Link: "/outside/f"},
 		fsmodel.Node{Path: "m3/sub/h2", Kind: fsmodel.File, Perm: 0600, Mtime: T + 8, Data: []byte("SRC:h"), HL: 2})
 	merge.Sort()
